@@ -154,6 +154,8 @@ def canon(I, st, v):
     v = normalize(v)
     while v[0] == "enum" and v[1] in (SOME, OKV) and len(v[2]) == 1:
         v = v[2][0]
+    if v[0] == "tuple":
+        v = ("tuple", tuple(x if (x[0] == "enum" and x[1] in (SOME, NONE)) else canon(None, None, x) for x in v[1]))
     if v[0] == "abs" and v[1] == "siter":
         v = ("abs", "svec", v[2][v[3]:])
     return v
@@ -260,7 +262,9 @@ def run(tier):
                     st2 = hirai.State(depth=0).setroot(("T", "view"), ("struct", view, (("0", p1),)))
                     r2 = I2.inline(getter, [("ref", (("T", "view"),))], st2)
                     got = [canon(I2, s, v) for ctl, v, s in r2 if ctl == OK]
-                    want = canon(None, None, vals[0]) if len(vals) == 1 else None
+                    want = canon(None, None, vals[0]) if len(vals) == 1 else canon(None, None, ("tuple", tuple(vals)))
+                    if len(vals) > 1 and not (got and got[0][0] == "tuple" and len(got[0][1]) == len(vals)):
+                        want = None
                     if len(r2) != 1 or r2[0][0] != OK or any(has_unk(g) for g in got):
                         C.note("undecided", "%s(%s): getter result not decidable: %s (unknown %s)" % (label, albl, [show_value(g)[:80] for g in got], sorted(I2.unknown_calls)[:4]))
                     elif want is not None:
